@@ -566,8 +566,16 @@ assign_int_float(To& to, const From from, Rounding_Dir dir) {
              (from < Extended_Int<To_Policy, To>::min))) {
     return set_neg_overflow_int<To_Policy>(to, dir);
   }
+  // Extended_Int<To_Policy, To>::max may not be representable in From
+  // (the conversion would round it up to max + 1), whereas
+  // C_Integer<To>::max + 1 is a power of two: from <= max if and only if
+  // (C_Integer<To>::max + 1) - from >= 1 + (C_Integer<To>::max - max),
+  // and the subtraction is exact whenever the outcome matters.
+  const From max_plus_one = From(2) * From(C_Integer<To>::max / 2 + 1);
+  const From gap
+    = From(1 + (C_Integer<To>::max - Extended_Int<To_Policy, To>::max));
   if (CHECK_P(To_Policy::check_overflow,
-             (from > Extended_Int<To_Policy, To>::max))) {
+              (from >= max_plus_one || max_plus_one - from < gap))) {
     return set_pos_overflow_int<To_Policy>(to, dir);
   }
 #endif
